@@ -24,7 +24,7 @@ from harness import common as C
 from harness import schema_xml as X
 
 PROP = "C11"
-FIXED = False      # mirrored by the Coq-side [fixed] argument (sent to the extracted model with every case)
+FIXED = True       # fix: commits f83491d, d18c9c6 are in /repo; mirrored by the Coq-side [fixed] argument (sent to the extracted model with every case)
 COQ_TARGETS = ["Props/C11.vo", "Extract/ExtractC11.vo"]
 TRUSTED = [
     "Model/Units.v is a hand transcription of UnitEntry.finalize_entry/_get_conversion_factor/get_conversion_factor, "
